@@ -84,8 +84,9 @@ def second_act():
 
 def apply_second_act(tree, root, act):
     """Rewrite the chosen file on disk; returns the updated tree spec, or None when no file qualifies."""
-    linked = {f["hardlink"] for f in tree["files"] if f.get("hardlink") is not None}
-    cands = [i for i, f in enumerate(tree["files"]) if f["size"] > 0 and f.get("hardlink") is None and i not in linked]
+    linked = {f["hardlink"] for f in tree["files"] if f.get("hardlink") is not None} | {
+        f["via"] for f in tree["files"] if f.get("via") is not None}
+    cands = [i for i, f in enumerate(tree["files"]) if f["size"] > 0 and f.get("hardlink") is None and f.get("via") is None and i not in linked]
     if not cands:
         return None
     i = cands[act["file"] % len(cands)]
